@@ -479,6 +479,7 @@ pub fn run(run: &Run) {
     table.extend(table_exprs(depth2, false).into_iter().map(|e| (false, e)));
     table.extend(table_exprs(depth2, true).into_iter().map(|e| (true, e)));
     run.set_extra("table_expressions", json!(table.len()));
+    let claims_by_form = [std::sync::atomic::AtomicU64::new(0), std::sync::atomic::AtomicU64::new(0)];
     par_each(&table, |i, (function, e)| {
         let (form, src) = if *function { ("function", function_with(e)) } else { ("template", template_with(e)) };
         let case = json!({"kind": "table", "expr": e, "form": form});
@@ -486,6 +487,7 @@ pub fn run(run: &Run) {
         run.watch(&case);
         match audit_source(&src, &field, &case, *function) {
             Some(audit) => {
+                claims_by_form[*function as usize].fetch_add(audit.claims, std::sync::atomic::Ordering::Relaxed);
                 if audit.claims > 0 {
                     run.nontrivial(1);
                 }
@@ -503,6 +505,14 @@ pub fn run(run: &Run) {
             None => run.outcome("table:not-lifted"),
         }
     });
+    // A form of the table in which no claim at all was compared is a broken harness, not a pass.
+    for (k, name) in ["template", "function"].iter().enumerate() {
+        let n = claims_by_form[k].load(std::sync::atomic::Ordering::Relaxed);
+        run.set_extra(&format!("table_claims_compared_{name}"), json!(n));
+        if n == 0 {
+            run.machinery_error(&format!("no degree claim was compared in the {name} half of the operator table"));
+        }
+    }
     let max = run.tier.pick(3, 4);
     let skels = enumerate(cf_opts(max));
     run.set_extra("merge_skeletons", json!(skels.len()));
